@@ -255,6 +255,13 @@ def read_job(job):
                                    if any(x != '+' and not isinstance(x, bc.DomainS) for x in c.sequence)})
             res['lost_while_kept'] = ['domain ' + n for n in lostd] + ['complex ' + n for n in lostc] + ['complex %s holds names, not domain objects' % n for n in held_strings]
             del kept, todo
+        if out is not None and job.get('reconfigure_while_held'):
+            # the reader is re-configured (cleared and set again, as between two input files) while the caller still holds
+            # the result: configuration is not a statement about lifetimes, every held object stays the registered singleton
+            objectio.clear_io_objects()
+            res['registry_after_clear'] = _registry_check(bc, out)
+            objectio.set_io_objects()
+            res['registry_after_reconfigure'] = _registry_check(bc, out)
         # registry invariants after the (possibly failed) read: previously held objects stay valid singletons
         res['registry'] = _registry_check(bc, held)
         # lifetime: dropping the dictionaries releases everything after at most one gc pass
